@@ -445,6 +445,9 @@ func (rep *CheckReport) writeEvidence(o *checkOpts, inconclusive []string) error
 	}
 	sort.Strings(assume)
 	level := "model_checking"
+	if lv, err := os.ReadFile(filepath.Join(o.verif, "harness", rep.Prop, "LEVEL")); err == nil {
+		level = strings.TrimSpace(string(lv))
+	}
 	cov := map[string]any{
 		"states":                        states,
 		"transitions":                   transitions,
@@ -460,6 +463,10 @@ func (rep *CheckReport) writeEvidence(o *checkOpts, inconclusive []string) error
 		"explanation": "states = feasible paths explored by bounded symbolic execution of the go/ssa of the real functions; transitions = SSA instructions executed symbolically; " +
 			"obligations = assertion instances reached, discharged = proved unsat (or trivially true after constant folding) under the path condition; " +
 			"traces_validated_against_impl = counterexample tapes replayed against the native build",
+	}
+	if level == "translation_validation" {
+		cov["programs"] = len(samples)
+		cov["disagreements_checked"] = obligations
 	}
 	var known []string
 	for _, k := range rep.Known {
